@@ -388,6 +388,43 @@ def check_failure_is_kept_as_raised(check, an: Analysis, rule: str):
                    path=rules.path_lines(*bad) if bad else None, analysed=n)
 
 
+def check_kernel_core(check, an: Analysis, rule: str = 'kernel', skip=()):
+    """
+    The few kernel rules every awaiting operation rests on, decided by each property that is
+    built on suspension and wake-up (a kernel that delivers a stale or foreign signal ends
+    the whole run, whatever the program was doing):
+
+      wakeups    postpone()/suspend() wake their caller by a signal made for this pause and
+                 withdraw it on every exit
+      cancel     a cancellation that loses the race against the end of its task is disarmed
+      subscribe  every notification class lets go of exactly what it was given
+      schedule   the loop queues a dated activation under the date as given, dates tested
+                 with `is None`
+      loop       no object keeps the loop of an earlier run
+    """
+    from ..report import SubCheck
+    from . import c01, c03, c15
+    check.rule(rule, 'kernel core: wake-up signals of their own and withdrawn; lost '
+                     'cancellations disarmed; subscribe/unsubscribe agree; dated activations '
+                     'queued under the date as given; no loop kept (rules shared with '
+                     'C01/C03/C15)')
+    if 'wakeups' not in skip:
+        c03.check_own_wakeup_is_fresh(check, an, rule)
+    if 'cancel' not in skip or 'wakeups' not in skip:
+        c03._check_signal_lifecycles(
+            check, an, wrapper_callee(an), rule=rule,
+            only=lambda fn, cls: ('cancel' not in skip and cls == CANCEL_TASK) or (
+                'wakeups' not in skip and fn.cls is None
+                and fn.module.name == 'usim._primitives.notification'))
+    if 'subscribe' not in skip:
+        c03._check_subscribe_protocol(SubCheck(check, rule, 'Notification'), an)
+    if 'schedule' not in skip:
+        c01.check_schedule_keys(check, an, rule)
+        c01._check_optional_dates(check, an, rule)
+    if 'loop' not in skip:
+        c15.check_loop_never_kept(check, an, rule)
+
+
 def check_disable_interrupts(check, an: Analysis, rule: str):
     """
     whatever class the scope has, every way through its ``_disable_interrupts`` (the first
